@@ -221,7 +221,15 @@ func (tr *tokenReader) nextIdent(firstRune rune) bool {
 
 func (tr *tokenReader) skipFollowingWhitespace() {
 	for {
-		b, _ := tr.readByte()
+		b, err := tr.readByte()
+		if err != nil {
+			// nothing was read: there is no byte to give back, and a reader
+			// failure must not be lost
+			if err != io.EOF {
+				tr.addError(err)
+			}
+			return
+		}
 		switch b {
 		case '\n':
 			tr.loc.incLine()
